@@ -90,13 +90,13 @@ class HeadersEaeter:
         return pos
 
     def _eat_last_hyphen(self, chunk: bytes, base: int) -> Optional[int]:
-        chunk_start = chunk[base: base + 2]
+        chunk_start = chunk[base: base + 1]
         if not chunk_start:
             return
         if chunk_start == HYPHEN:
             self.stopped = True
             return base + 1
-        raise UnexpectedBodyEndError(f'Last hyphen was expected, got (first 2 symbols slice): {chunk_start}')
+        raise UnexpectedBodyEndError(f'Last hyphen was expected, got: {chunk_start}')
 
     def _eat_lf(self, chunk: bytes, base: int) -> Optional[int]:
         chunk_start = chunk[base: base + 1]
